@@ -89,7 +89,14 @@ def make(cfg):
         tmpl = os.path.join(d, tag + ".{file_nr:02d}.raw")
         with guppi.open(tmpl, "ws", header0=h, squeeze=False, frames_per_file=2) as fw:
             fw.write(data)
-        out = ([tmpl.format(file_nr=i) for i in range(nfiles)], {"format": "guppi"})
+        names = [tmpl.format(file_nr=i) for i in range(nfiles)]
+        if cfg.get("names") == "not_lexical":
+            # the recording order is the order of the list, whatever the files are called: z, y, x ...
+            new = [os.path.join(d, "%s.part-%s.raw" % (tag, chr(ord("z") - i))) for i in range(nfiles)]
+            for a, b in zip(names, new):
+                os.replace(a, b)
+            names = new
+        out = (names, {"format": "guppi"})
     elif kind == "dada_stokes":
         from baseband import dada
 
